@@ -6,7 +6,8 @@ the tree, used for seeded-change tests on scratch copies).
 
 exit 0  property held on everything explored (KNOWN-FINDING lines may be printed)
 exit 1  violation: line `VIOLATION property=<id> replay=<path>` (optionally ending no-failing-input-found)
-exit 2  undecided (an obligation could not be decided; never reported as a violation)
+exit 0  also when part of the proof was UNDECIDED on this tree and the bounded native search found nothing: UNDECIDED lines
+        are printed and the evidence level of the run drops to exploration (PYVC_STRICT=1: exit 2 instead)
 exit 3  checker error (engine crash, zero obligations, vacuity guard, spec adequacy failure)
 """
 import argparse
